@@ -907,6 +907,140 @@ fn main() {
             check_tfm_route(i, &words, &[(b'a', 0), (b'b', 1)], &run_words, acc, shr);
         });
     }
+    // F2g: the consumer of CompiledProgram::run: boxworks_text::TextPreprocessorImpl::add_word / add_text
+    {
+        use boxworks::TextPreprocessor as _;
+        let lay = [Layout::Consecutive, Layout::FallThrough, Layout::SkipForeign];
+        let n = space2.len() * 3 * 3;
+        // a font file with the seven parameters register_font needs (space, stretch, shrink, …, extra space)
+        let mut font_bytes = tiny_tfm(&[], &[]);
+        {
+            // np = 7: patch the size table and append the parameters
+            let lf = u16::from_be_bytes([font_bytes[0], font_bytes[1]]) + 7;
+            font_bytes[0..2].copy_from_slice(&lf.to_be_bytes());
+            font_bytes[22..24].copy_from_slice(&7u16.to_be_bytes());
+            for k in 0..7i32 {
+                font_bytes.extend(((k + 1) << 18).to_be_bytes());
+            }
+        }
+        let font_file = tfm::File::deserialize(&font_bytes).0.expect("harness font");
+        let (sp, w, shr, ff) = (&space2, &words_upto(3), &sh, &font_file);
+        ctx.family("add-word-route", "every set of <= 2 rules (left-boundary and right-boundary rules included) x boundarychar x 3 chain layouts, compiled and registered as the font of a boxworks_text::TextPreprocessorImpl; every word of length 1..3 through add_word and through add_text: the character / ligature / kern nodes of the horizontal list are compared with the reference interpreter (discretionaries ignored)", n, |i, acc| {
+            let d = vcore::digits(i, &[sp.len(), 3, 3]);
+            let rules = sp.rules(d[0]);
+            let Some(p) = build(&rules, rbc_of(d[1]), lay[d[2] as usize]) else {
+                acc.skipped += 1;
+                return;
+            };
+            let font = model_font(&p);
+            if !lk::looping_pairs(&font, SIM_BUDGET).is_empty() {
+                acc.skipped += 1;
+                return;
+            }
+            let (prog, eps, kerns) = to_program(&p);
+            let Ok((cp, _)) = catch(|| CompiledProgram::compile(&prog, FixWord(DESIGN_SIZE), &kerns, eps.clone())) else {
+                return; // compile panics are reported by the other families
+            };
+            for wd in w.iter() {
+                let Some(m) = lk::run(&font, wd, true, font.bchar, SIM_BUDGET) else { continue };
+                let want: Vec<Out> = m.nodes.iter().map(|n| match n {
+                    Node::Char(c) | Node::Lig { c, .. } => Out::G(*c),
+                    Node::Kern(k) => Out::K(scaled_kern(*k)),
+                }).collect();
+                let boundary_rule = m.fired.iter().any(|f| f.left_boundary || f.right_boundary);
+                let text: String = wd.iter().map(|c| *c as char).collect();
+                for via_text in [false, true] {
+                    acc.eval();
+                    if !m.fired.is_empty() {
+                        acc.nontrivial();
+                    }
+                    let cp2 = cp.clone();
+                    let got = catch(|| {
+                        let mut tp = boxworks_text::TextPreprocessorImpl::new(Default::default());
+                        tp.register_font(0, ff, cp2);
+                        tp.activate_font(0);
+                        let mut list = vec![];
+                        if via_text {
+                            tp.add_text(&text, &mut list);
+                        } else {
+                            tp.add_word(&text, &mut list);
+                        }
+                        let (mut seq, mut spelled) = (vec![], String::new());
+                        for h in &list {
+                            match h {
+                                boxworks::ds::Horizontal::Char(c) => {
+                                    seq.push(Out::G(c.char as u8));
+                                    spelled.push(c.char);
+                                }
+                                boxworks::ds::Horizontal::Ligature(l) => {
+                                    seq.push(Out::G(l.char as u8));
+                                    spelled.push_str(&l.original_chars);
+                                }
+                                boxworks::ds::Horizontal::Kern(k) => seq.push(Out::K(k.width.0 as i64)),
+                                boxworks::ds::Horizontal::Discretionary(_) => {}
+                                other => seq.push(Out::K(i64::MIN + format!("{other:?}").len() as i64)), // anything else is unexpected
+                            }
+                        }
+                        (seq, spelled)
+                    });
+                    let case = || case_json(&rules, p.rbc, lay[d[2] as usize], json!({"kind": "add-word", "word": text, "via_add_text": via_text}));
+                    match got {
+                        Err(pn) => acc.fail(i, case(), render_nodes(&m.nodes), pn.describe(), "add_word / add_text panicked"),
+                        Ok((seq, spelled)) => {
+                            if seq != want || spelled != text {
+                                acc.fail(i, case(), format!("{} = {:?}", render_nodes(&m.nodes), want), format!("{seq:?} spelling {spelled:?}"), "the horizontal list of add_word differs from direct interpretation of the lig/kern program");
+                            } else {
+                                acc.count("add_word_route_compared");
+                                if wd.len() == 1 && boundary_rule {
+                                    acc.count("one_char_word_with_boundary_rule");
+                                }
+                            }
+                        }
+                    }
+                }
+            }
+        });
+    }
+    // F2h: kern amounts at design sizes where TeX §572 halves z (C17 owns the arithmetic; here the kern a run emits)
+    {
+        let sizes: [(&str, i32); 8] = [("10pt", 10 << 20), ("1pt", 1 << 20), ("127.99999pt", (128 << 20) - 10), ("128pt", 128 << 20), ("130.0001pt", (130 << 20) + 105), ("200pt + 16 units", (200 << 20) + 16), ("700.00005pt", (700 << 20) + 52), ("2047.9999pt", (2047 << 20) + 1048471)];
+        let amounts: [i32; 8] = [1, -1, 1 << 19, -(1 << 19), 1 << 20, -(1 << 20), (16 << 20) - 1, -((16 << 20) - 1)];
+        let (sz, am) = (&sizes, &amounts);
+        ctx.family("kern-design-sizes", "one kern rule a b -> KRN x, x in {+-0.000001, +-0.5, +-1, +-15.999999}, given by value and by index, compiled at the design sizes 10pt, 1pt, 127.99999pt, 128pt, 130.0001pt, 200pt+16 units, 700.00005pt, 2047.9999pt; the kern emitted for the word ab is compared with TeX §571-572 store_scaled in i64", 8 * 8 * 2, |i, acc| {
+            let d = vcore::digits(i, &[8, 8, 2]);
+            let (name, ds) = sz[d[0] as usize];
+            let amount = am[d[1] as usize];
+            let by_index = d[2] == 1;
+            acc.eval();
+            acc.nontrivial();
+            let prog = Program {
+                instructions: vec![Instruction { next_instruction: None, right_char: Char(b'b'), operation: if by_index { Operation::KernAtIndex(1) } else { Operation::Kern(FixWord(amount)) } }],
+                left_boundary_char_entrypoint: None,
+                right_boundary_char: None,
+                passthrough: Default::default(),
+            };
+            let want = store_scaled(amount, (ds / 16) as i64);
+            let got = catch(|| {
+                let (cp, _) = CompiledProgram::compile(&prog, FixWord(ds), &[FixWord(7), FixWord(amount)], [(Char(b'a'), 0u16)].into_iter().collect());
+                cp.run("ab").filter_map(|it| if let RunItem::Kern(k) = it { Some(k.0 as i64) } else { None }).collect::<Vec<i64>>()
+            });
+            let case = || json!({"kind": "kern-design-size", "design_size": name, "design_size_fixword": ds, "kern_fixword": amount, "by_index": by_index});
+            if amount < 0 && ds >= 128 << 20 {
+                acc.count("negative_kern_at_design_size_ge_128pt");
+            }
+            match (got, want) {
+                (Err(p), _) => acc.fail(i, case(), format!("{want:?}"), p.describe(), "compile / run panicked"),
+                (Ok(g), Some(w)) => {
+                    if g != vec![w] {
+                        acc.fail(i, case(), format!("one kern of {w} sp (TeX §571-572)"), format!("{g:?}"), "the kern amount differs from TeX's store_scaled at this design size");
+                    } else {
+                        acc.class("kern amount agrees");
+                    }
+                }
+                (Ok(_), None) => acc.skipped += 1,
+            }
+        });
+    }
     // F3: a word with skip byte > 128 inside a chain (TeX §1039 never executes it and stops there;
     //     lang::Operation::EntrypointRedirect documents it as an unconditional stop)
     {
@@ -936,6 +1070,9 @@ fn main() {
     ctx.require("ligature_of_a_ligature", "a ligature command fired on a character that was itself inserted by a ligature command");
     ctx.require("left_boundary_rule_fired", "a left boundary rule fired");
     ctx.require("right_boundary_rule_fired", "a rule fired against the right boundary character");
+    ctx.require("add_word_route_compared", "words whose horizontal list from add_word / add_text was compared");
+    ctx.require("one_char_word_with_boundary_rule", "a one-character word for which a left- or right-boundary rule fires, through add_word");
+    ctx.require("negative_kern_at_design_size_ge_128pt", "a negative kern emitted at a design size of 128pt or more");
     ctx.require("pl_route_program_compiled", "programs compiled through the property-list route");
     ctx.require("nonstandard_ligature_code", "an executed ligature instruction with a nonstandard op code (TeX: treated as =:)");
     ctx.require("kern_index_with_high_byte", "a kern instruction whose index needs the high byte");
